@@ -321,7 +321,7 @@ def synth(r):
             for _ in range(r.randrange(0, 3))}
     tp = TracePointConfig('tp-' + gen_text(r, False)[:6], r.pick(['f.py', 'dir/ünï.py']), r.pick([1, 42, 0, -1]), args,
                           [gen_text(r, False) for _ in range(r.randrange(0, 3))], [])
-    res_attrs = {'service.name': gen_text(r) or 's', 'n': r.pick([r.randrange(100), 2 ** 65]), 'f': 1.5, 'b': r.chance(0.5)}
+    res_attrs = {'service.name': gen_text(r) or 's', 'n': r.pick([r.randrange(100), 2 ** 65, 2 ** 63, 2 ** 63 - 1, -2 ** 63, 2 ** 64 - 1]), 'f': 1.5, 'b': r.chance(0.5)}
     if r.chance(0.4):
         res_attrs['seq'] = r.pick([['a', 'b'], (1, 2, 3), [True, False], [1.5]])
         flags.add('sequence')
@@ -344,7 +344,10 @@ def synth(r):
         val = r.pick([gen_text(r, False), r.randrange(-2 ** 62, 2 ** 62), True, 2.5, b'raw-bytes', ['x', 'y'], (1, 2),
                       [0.5, 1.5], [True], HttpStatus.NOT_FOUND, HttpStatus.OK, False, 0,
                       # values the attribute container accepts and the wire format has no direct place for
-                      gen_text(r), ('a', None, 'b'), 2 ** 64, -2 ** 70, [gen_text(r), 'z']])
+                      gen_text(r), ('a', None, 'b'), 2 ** 64, -2 ** 70, [gen_text(r), 'z'],
+                      # either side of what a 64 bit signed field can hold
+                      r.pick([2 ** 63 - 1, 2 ** 63, -2 ** 63, -2 ** 63 - 1, 2 ** 64 - 1, -2 ** 64 + 1]),
+                      [1, r.pick([2 ** 63, 2 ** 64 - 1, -2 ** 63 - 1])]])
         if isinstance(val, str) and SURR.search(val):
             flags.add('surrogate')
         if isinstance(val, (list, tuple)):
